@@ -2,6 +2,7 @@ import KrakenModel.Util.LTS
 import KrakenModel.Model.BlobStore
 import KrakenModel.Proof.BlobStore
 import KrakenModel.Proof.C07
+import KrakenModel.Proof.C07Md
 /-
   C07  The disk blob store behaves like its capacity-bounded LRU model.
 
@@ -159,6 +160,44 @@ theorem getMd_frame (s : State) (o : Op) (k : Key) (sfx : Nat) (ht : touchesMd o
     (b b' : Blob) (hb : s.blobs.get k = some b) (hb' : (step s o).blobs.get k = some b') :
     mdGet b'.mds sfx = mdGet b.mds sfx :=
   md_frame s o k sfx ht hb hb'
+
+/-- **(6') … over whole histories.** After any history `ops`, a successful `SetMetadata(k, m)` and any
+further history `more` that contains no metadata call on `(k, m.sfx)` and no `MarkComplete(k)`: as long
+as `k` is still the same incarnation (not deleted, evicted or re-created in between),
+`GetMetadata(k, m.sfx)` returns the value that was set. -/
+theorem getMd_returns_last_set (cap : Nat) (ops more : List Op) (k : Key) (sc : Scope) (m : Md)
+    (hset : output ((sys cap).run ops) (.setMd k sc m) = .ok)
+    (hno : ∀ o ∈ more, touchesMd o k m.sfx = false)
+    (b b' : Blob)
+    (hb : ((sys cap).run (ops ++ [.setMd k sc m])).blobs.get k = some b)
+    (hb' : ((sys cap).run (ops ++ [.setMd k sc m] ++ more)).blobs.get k = some b')
+    (hinc : b'.inc = b.inc) :
+    output ((sys cap).run (ops ++ [.setMd k sc m] ++ more)) (.getMd k .any m.sfx) = .bytes m.val := by
+  have hg := goodInc_run cap (ops ++ [.setMd k sc m])
+  have hcap : ((sys cap).run (ops ++ [.setMd k sc m])).cap = cap := run_cap cap _
+  have hrun : (sys cap).run (ops ++ [.setMd k sc m] ++ more) =
+      (sys ((sys cap).run (ops ++ [.setMd k sc m])).cap).runFrom ((sys cap).run (ops ++ [.setMd k sc m])) more := by
+    rw [hcap, Sys.run_append]
+  have hst := md_stable k m.sfx more _ hg hno b b' hb (by rw [← hrun]; exact hb') hinc
+  -- right after the set the value is there
+  have hnow : mdGet b.mds m.sfx = some m := by
+    have h1 := getMd_after_setMd ((sys cap).run ops) k sc m hset
+    have hs : (sys cap).run (ops ++ [.setMd k sc m]) = step ((sys cap).run ops) (.setMd k sc m) := by
+      rw [Sys.run_append]; rfl
+    rw [hs] at hb
+    simp only [output, apply, getMd, lookup, hb, inScope, if_true] at h1
+    cases hm : mdGet b.mds m.sfx with
+    | none => rw [hm] at h1; simp at h1
+    | some m' =>
+      rw [hm] at h1; simp at h1
+      -- the entry found is the one that was set
+      have hb2 := hb
+      simp only [step, apply, setMd] at hb2
+      split at hb2
+      · simp only [output, apply, setMd] at hset; rename_i e he; rw [he] at hset; simp at hset
+      · rw [BMap.get_set_self] at hb2; simp at hb2; subst hb2
+        simp only [mdGet_mdSet_self] at hm; simp at hm; rw [hm]
+  simp only [output, apply, getMd, lookup, hb', inScope, if_true, hst, hnow]
 
 /-- **(7) non-movable metadata disappears on completion** (and movable metadata stays): completing
 an incomplete blob keeps exactly its movable metadata. -/
